@@ -71,6 +71,7 @@ func runC06(r *lib.Run) {
 	}
 	r.RequireCov(
 		"decimal:accept-expected", "decimal:reject-expected", "decimal:value-at-bound",
+		"decimal:off-grid-value", "decimal:off-grid-less-than-half-quantum-outside", "decimal:off-grid-interior",
 		"string-length:accept-expected", "string-length:reject-expected", "string-length:bytes-and-chars-disagree",
 		"binary-length:accept-expected", "binary-length:reject-expected", "binary-length:bytes-and-chars-disagree",
 		"string-pattern:accept-expected", "string-pattern:reject-expected", "string-pattern:own-member",
@@ -478,6 +479,74 @@ func c06DecCase(r *lib.Run, fd int, ps []c06Part, v *big.Int, origin string) boo
 	return true
 }
 
+// c06DecOffGrid probes float64 values that carry one fraction digit more than
+// the type (v10 = value * 10^(fd+1)), i.e. values between two members of the
+// type. The statement ties acceptance to the range parts only, so the oracle
+// is plain interval membership of the exact decimal; a value less than half a
+// quantum outside a bound is still outside.
+func c06DecOffGrid(r *lib.Run, fd int, ps []c06Part, v10 *big.Int, origin string) bool {
+	if fd+1 > 18 {
+		return false
+	}
+	f, ok := c06Float(v10, fd+1)
+	if !ok {
+		r.Hit("decimal:skipped-not-float-exact")
+		return false
+	}
+	ten := big.NewInt(10)
+	if new(big.Int).Mod(v10, ten).Sign() == 0 {
+		return false
+	}
+	ps10 := make([]c06Part, len(ps))
+	for i, p := range ps {
+		ps10[i] = c06Part{lo: new(big.Int).Mul(p.lo, ten), hi: new(big.Int).Mul(p.hi, ten)}
+	}
+	t := &yang.YangType{Name: "decimal64", Kind: yang.Ydecimal64, FractionDigits: fd, Range: c06YangRange(ps, uint8(fd))}
+	rs := c06PartsString(ps, fd)
+	want := c06InParts(ps10, v10)
+	pos := "off-grid-interior"
+	if !want {
+		pos = "off-grid-far-outside"
+		for d := int64(1); d <= 9; d++ {
+			if c06InParts(ps10, new(big.Int).Add(v10, big.NewInt(d))) || c06InParts(ps10, new(big.Int).Sub(v10, big.NewInt(d))) {
+				pos = "off-grid-less-than-one-quantum-outside"
+				if d <= 4 {
+					pos = "off-grid-less-than-half-quantum-outside"
+				}
+				break
+			}
+		}
+	}
+	r.Case(fmt.Sprintf("decoff|%d|%s|%s", fd, rs, v10), true)
+	r.Hit("decimal:off-grid-value")
+	r.Hit("decimal:" + pos)
+	if want {
+		r.Hit("decimal:accept-expected")
+	} else {
+		r.Hit("decimal:reject-expected")
+	}
+	w := map[string]interface{}{"validator": "ValidateDecimalRestrictions", "fraction-digits": fd, "range": rs, "value": c06Scaled(v10, fd+1),
+		"float64": strconv.FormatFloat(f, 'g', -1, 64), "oracle": c06Verdict(want), "position": pos, "origin": origin}
+	var err error
+	if r.Guard("ValidateDecimalRestrictions", w, func() { err = ytypes.ValidateDecimalRestrictions(t, f) }) {
+		return true
+	}
+	w["ygot"] = c06Answer(err)
+	got := err == nil
+	if got == want {
+		return true
+	}
+	cause := c06DecCause(f, v10, fd+1)
+	w["float-conversion"] = cause
+	w["goyang-FromFloat"] = fmt.Sprintf("%+v", yang.FromFloat(f))
+	feat := "rejects-in-range:" + cause
+	if got {
+		feat = "accepts-out-of-range:" + cause
+	}
+	r.Violate("decimal-range", feat, fmt.Sprintf("ValidateDecimalRestrictions(fraction-digits %d, range %q, off-grid value %s): ygot %s, oracle %s", fd, rs, c06Scaled(v10, fd+1), c06Answer(err), c06Verdict(want)), w)
+	return true
+}
+
 func c06Decimals(r *lib.Run, budget int) {
 	pairs := 0
 	for idx := 0; pairs < budget; idx++ {
@@ -499,6 +568,20 @@ func c06Decimals(r *lib.Run, budget int) {
 		for _, v := range c06Probe(rng, ps, new(big.Int).Neg(bound), bound, 3) {
 			if c06DecCase(r, fd, ps, v, "random") {
 				pairs++
+			}
+		}
+		// off-grid values: within one quantum of each bound, and one random
+		if d <= 14 {
+			p := ps[rng.Intn(len(ps))]
+			b := p.lo
+			if rng.Intn(2) == 0 {
+				b = p.hi
+			}
+			b10 := new(big.Int).Mul(b, big.NewInt(10))
+			for _, dd := range []int64{-(1 + rng.Int63n(4)), 1 + rng.Int63n(4), 5 + rng.Int63n(5), -(5 + rng.Int63n(5))} {
+				if c06DecOffGrid(r, fd, ps, new(big.Int).Add(b10, big.NewInt(dd)), "random-off-grid") {
+					pairs++
+				}
 			}
 		}
 	}
